@@ -892,8 +892,9 @@ impl<W: Write + io::Seek> ZipWriter<W> {
             }
             let central_size = writer.stream_position()? - central_start;
 
-            if self.files.len() > spec::ZIP64_ENTRY_THR
-                || central_size.max(central_start) > spec::ZIP64_BYTES_THR
+            // (A field that holds exactly 0xFFFF / 0xFFFFFFFF reads as "see the ZIP64 record".)
+            if self.files.len() >= spec::ZIP64_ENTRY_THR
+                || central_size.max(central_start) >= spec::ZIP64_BYTES_THR
             {
                 let zip64_footer = spec::Zip64CentralDirectoryEnd {
                     version_made_by: DEFAULT_VERSION as u16,
